@@ -1,6 +1,7 @@
 import EkwVerif.Drive.Util
 import EkwVerif.Model.Ctrl
 import EkwVerif.Model.CtrlN
+import EkwVerif.Lemmas.SchedTermA
 open Lean EkwVerif.Drive EkwVerif.Ctrl
 
 namespace EkwVerif.DriveCtrl
@@ -41,7 +42,7 @@ def pEvent (j : Json) : Option Event :=
 
 def jCmd : Cmd → Json
   | .transmit ds s t => Json.arr #[Json.str "transmit", n ds.task, n ds.out, n s, n t]
-  | .taskSeq w t => Json.arr #[Json.str "task", n w.host, n w.idx, n t]
+  | .taskSeq w t pub => Json.arr #[Json.str "task", n w.host, n w.idx, n t, Json.arr (pub.map jds).toArray]
   | .fetch ds s => Json.arr #[Json.str "fetch", n ds.task, n ds.out, n s]
   | .purge h ds => Json.arr #[Json.str "purge", n h, n ds.task, n ds.out]
 
@@ -76,25 +77,83 @@ def digestCtl (job : Job) (cl : Cluster) (c : Ctl) : Json :=
     ("hasComputable", toJson c.hasComputable),
     ("hasAwaitable", toJson (c.hasAwaitable job))]
 
-def digestEnv (job : Job) (cl : Cluster) (e : Env) : Json :=
+/-- `wide`: with the contents of the stores (only asked for at the end of a run: the values are long terms) -/
+def digestEnv (job : Job) (cl : Cluster) (e : Env) (wide : Bool := false) : Json :=
   let dss := allDs job
-  Json.mkObj [
+  Json.mkObj ((if wide then [
     ("present", Json.arr ((cl.hosts.flatMap (fun h => (dss.filterMap (fun d => (e.present h d).map
-        (fun v => Json.arr #[n h, n d.task, n d.out, Json.str v]))))).toArray)),
+        (fun v => Json.arr #[n h, n d.task, n d.out, Json.str v]))))).toArray))] else []) ++ [
     ("queued", Json.arr (e.queued.map (fun p => Json.arr #[n p.1.host, n p.1.idx, n p.2])).toArray),
     ("outstanding", Json.arr (e.outstanding.map jIO).toArray),
     ("pending", Json.arr (e.pending.map jEvent).toArray),
-    ("viol", strs e.viol)]
+    ("viol", strs e.viol)])
+
+/-- lookup in a precomputed table; points outside the table keep the old function. (The table is an ARGUMENT: a
+definition that builds its table internally and returns a closure is eta-expanded by the compiler and would rebuild the
+table at every lookup.) -/
+def tabGet {α β : Type} [BEq α] (t : List (α × β)) (f : α → β) (a : α) : β :=
+  match t.lookup a with
+  | some b => b
+  | none => f a
+
+def tabGet2 {α β γ : Type} [BEq α] [BEq β] (t : List (α × List (β × γ))) (f : α → β → γ) (a : α) (b : β) : γ :=
+  match t.lookup a with
+  | some row => (match row.lookup b with | some v => v | none => f a b)
+  | none => f a b
+
+/-- semantics-preserving re-tabulation of the function-valued fields of the controller state over the finite domain of
+the job and the cluster: a lookup then costs one pass over a table instead of one closure per past update -/
+def compactCtl (job : Job) (cl : Cluster) (c : Ctl) : Ctl :=
+  let dss := allDs job
+  let hosts := cl.hosts
+  let ws := cl.ids
+  let ts := job.taskIds
+  let tTracker := ts.map (fun t => (t, c.tracker t))
+  let tTracked := ts.map (fun t => (t, c.tracked t))
+  let tPtrack := dss.map (fun d => (d, c.ptrack d))
+  let tPtracked := dss.map (fun d => (d, c.ptracked d))
+  let tOutputs := dss.map (fun d => (d, c.outputs d))
+  let tHostDs := hosts.map (fun h => (h, dss.map (fun d => (d, c.hostDs h d))))
+  let tDsHost := dss.map (fun d => (d, hosts.map (fun h => (h, c.dsHost d h))))
+  let tWorkerDs := ws.map (fun w => (w, dss.map (fun d => (d, c.workerDs w d))))
+  let tPublished := dss.map (fun d => (d, c.published d))
+  let tDispatched := ts.map (fun t => (t, c.dispatched t))
+  let tDoneC := ts.map (fun t => (t, c.doneC t))
+  let tAnnounced := dss.map (fun d => (d, c.announced d))
+  { c with tracker := tabGet tTracker c.tracker, tracked := tabGet tTracked c.tracked, ptrack := tabGet tPtrack c.ptrack,
+           ptracked := tabGet tPtracked c.ptracked, outputs := tabGet tOutputs c.outputs,
+           hostDs := tabGet2 tHostDs c.hostDs, dsHost := tabGet2 tDsHost c.dsHost, workerDs := tabGet2 tWorkerDs c.workerDs,
+           published := tabGet tPublished c.published, dispatched := tabGet tDispatched c.dispatched,
+           doneC := tabGet tDoneC c.doneC, announced := tabGet tAnnounced c.announced }
+
+def compactEnv (job : Job) (cl : Cluster) (e : Env) : Env :=
+  let dss := allDs job
+  let ts := job.taskIds
+  let tPresent := cl.hosts.map (fun h => (h, dss.map (fun d => (d, e.present h d))))
+  let tRan := ts.map (fun t => (t, e.ran t))
+  let tProduced := dss.map (fun d => (d, e.produced d))
+  let tDelivered := dss.map (fun d => (d, e.delivered d))
+  let tDisp := ts.map (fun t => (t, e.dispatchedE t))
+  let tPub := ts.map (fun t => (t, e.pubOf t))
+  let tTrim := ts.map (fun t => (t, e.trimmed t))
+  { e with present := tabGet2 tPresent e.present, ran := tabGet tRan e.ran, produced := tabGet tProduced e.produced,
+           delivered := tabGet tDelivered e.delivered, dispatchedE := tabGet tDisp e.dispatchedE,
+           pubOf := tabGet tPub e.pubOf, trimmed := tabGet tTrim e.trimmed }
+
+def compactSys (job : Job) (cl : Cluster) (s : Sys) : Sys :=
+  { s with ctl := compactCtl job cl s.ctl, env := compactEnv job cl s.env }
 
 def jPhase : Phase → String
   | .top => "top" | .waiting => "waiting" | .finished => "finished" | .crashed => "crashed"
   | .assigning => "assigning" | .planning => "planning" | .flushF => "flushF" | .flushP => "flushP"
   | .notifying => "notifying"
 
-def full (d : DState) (extra : List (String × Json)) : Json :=
-  Json.mkObj (extra ++ [("ctl", digestCtl d.job d.cl d.sys.ctl), ("env", digestEnv d.job d.cl d.sys.env),
-    ("phase", Json.str (jPhase d.sys.phase)), ("err", optStr d.sys.err), ("shutdowns", n d.sys.shutdowns),
-    ("den", Json.arr (d.job.ext.map (fun ds => Json.arr #[n ds.task, n ds.out, optStr (den semStr d.job ds)])).toArray)])
+def full (d : DState) (extra : List (String × Json)) (wide : Bool := false) : Json :=
+  Json.mkObj (extra ++ [("ctl", digestCtl d.job d.cl d.sys.ctl), ("env", digestEnv d.job d.cl d.sys.env wide),
+    ("phase", Json.str (jPhase d.sys.phase)), ("err", optStr d.sys.err), ("shutdowns", n d.sys.shutdowns)] ++
+    (if wide then
+      [("den", Json.arr (d.job.ext.map (fun ds => Json.arr #[n ds.task, n ds.out, optStr (den semStr d.job ds)])).toArray)]
+     else []))
 
 def pJob (j : Json) : Job :=
   { tasks := (getArr j "tasks").map (fun t =>
@@ -112,5 +171,52 @@ def pAsg (j : Json) : Asg :=
       | [t, k, h] => (⟨asNat t, asNat k⟩, asNat h)
       | _ => (⟨0, 0⟩, 0)) }
 
+
+/-- the order in which the real `build_assignment` scanned `ds2host[ds]` for each input it had to look up:
+`[[t, k, [h, ...]], ...]` -/
+def pOrders (j : Json) : List (Ds × List Host) :=
+  (getArr j "orders").filterMap (fun o => match asArr o with
+    | [t, k, hs] => some (⟨asNat t, asNat k⟩, (asArr hs).map asNat)
+    | _ => none)
+
+/-- **the scan, not the oracle, determines the source**: for every transmit source the real run chose, the model's scan
+(`scanSource`) over the real iteration order of `ds2host[ds]` must return exactly that host -/
+def scanMismatches (c : Ctl) (a : Asg) (orders : List (Ds × List Host)) : List String :=
+  a.cands.filterMap (fun p =>
+    match orders.find? (·.1 == p.1) with
+    | none => some s!"no scan order recorded for input {p.1.task}.{p.1.out}"
+    | some (_, order) =>
+      if scanSource order c p.1 == some p.2 then none
+      else if c.dsHost p.1 p.2 == .available && order.contains p.2 then
+        -- another `available` host than the first one of the scan: admissible (c04_scan_source_holds), reported softly
+        some s!"soft: scan of ds2host[{p.1.task}.{p.1.out}] over {order} yields {scanSource order c p.1}, implementation chose {p.2}"
+      else some s!"scan of ds2host[{p.1.task}.{p.1.out}] over {order} yields {scanSource order c p.1}, implementation chose {p.2}")
+
+/-- one environment op of the trace (`run` / `yield` / `io`) on the non-atomic layer; `none` = not enabled / bad op -/
+def envOpN (job : Job) (cl : Cluster) (x : SysN) (j : Json) : Option SysN :=
+  match j.getObjVal? "yield" with
+  | .ok r =>
+    (match asArr r with
+     | [t, k] =>
+       if nextHidden job x.hidden (asNat t) != some (asNat k) then none
+       else stepN semStr job cl x (.yield (asNat t))
+     | _ => none)
+  | .error _ =>
+    let es : Option StepN :=
+      match j.getObjVal? "run" with
+      | .ok r => (match asArr r with | [h, i, t] => some (.start ⟨asNat h, asNat i⟩ (asNat t)) | _ => none)
+      | .error _ =>
+        let want : Option IO := match getArr j "io" with
+          | [Json.str "transmit", t, k, s, g] => some (.transmit ⟨asNat t, asNat k⟩ (asNat s) (asNat g))
+          | [Json.str "fetch", t, k, s] => some (.fetch ⟨asNat t, asNat k⟩ (asNat s))
+          | _ => none
+        want.map (fun o => .base (.env (.io (x.sys.env.outstanding.findIdx (· == o)))))
+    es.bind (fun es => stepN semStr job cl x es)
+
+/-- executor steps that the real run performed in the MIDDLE of a controller round: `[[k, op], ...]`, `k` = number of
+commands of the round issued before the step. They are replayed at the first micro-step boundary at which at least `k`
+commands have been issued. -/
+def pMid (j : Json) : List (Nat × Json) :=
+  (getArr j "mid").filterMap (fun m => match asArr m with | [k, op] => some (asNat k, op) | _ => none)
 
 end EkwVerif.DriveCtrl
